@@ -156,6 +156,9 @@ def run(ctx):
         # --- oracles on the implementation ---
         if im["outcome"].startswith("ESCAPE"):
             ctx.violation(case, f"request parser let a non-HTTP exception escape: {im['outcome']}")
+        if im.get("urlexc"):
+            ctx.violation(case, "request parser accepted a target whose URL raises when read (escapes RequestHandler.start, "
+                                f"no 400 is sent): {im['urlexc'][0]}")
         if im["outcome"].startswith("OK"):
             why = retained_ok(im, lim, len(segs[-1]))
             if why:
@@ -472,4 +475,5 @@ def replay(ctx, case):
         return {"violates": None}
     else:
         im = H.impl_run([bytes.fromhex(x) for x in case["segs"]], lim)
-    return {"impl": im["outcome"], "violates": im["outcome"].startswith("ESCAPE")}
+    return {"impl": im["outcome"], "urlexc": im.get("urlexc"),
+            "violates": im["outcome"].startswith("ESCAPE") or bool(im.get("urlexc"))}
